@@ -10,6 +10,13 @@ pub fn generate<W: Write>(t: &Tables, suite: &str, tier: &str, seed: u64, out: &
     match suite {
         "table" => table(t, out),
         "atom" => atom(t, thorough, &mut rng, out),
+        "kinds" => kinds(t, thorough, &mut rng, out),
+        "read" => read_suite(t, thorough, &mut rng, out),
+        "events" => events(t, thorough, &mut rng, out),
+        "graph" => graph(t, thorough, &mut rng, out),
+        "pool" => pool(thorough, &mut rng, out),
+        "val" => val(t, thorough, &mut rng, out),
+        "depth" => depth(thorough, out),
         _ => { eprintln!("unknown suite {}", suite); std::process::exit(2) }
     }
 }
@@ -151,4 +158,560 @@ fn atom<W: Write>(t: &Tables, thorough: bool, rng: &mut Rng, out: &mut W) {
         }
         read_req(out, &s);
     }
+}
+
+// ------------------------------------------------------------------------------------------
+// random atom kinds (canonical form)
+
+pub fn rand_bracket(rng: &mut Rng, stereo_bias: bool) -> String {
+    let o = |rng: &mut Rng, p: usize, f: &dyn Fn(&mut Rng) -> String| -> String { if rng.chance(p, 10) { f(rng) } else { "_".to_string() } };
+    let iso = o(rng, 2, &|r| r.below(1000).to_string());
+    let sym = match rng.below(10) { 0 => "*".to_string(), 1 | 2 => format!("R{}", rng.below(8)), _ => format!("E{}", if rng.chance(1, 2) { [5usize, 6, 7, 14, 15, 0][rng.below(6)] } else { rng.below(118) }) };
+    let cfg = if stereo_bias { if rng.chance(8, 10) { (55 + rng.below(2)).to_string() } else { o(rng, 5, &|r| r.below(57).to_string()) } } else { o(rng, 3, &|r| if r.chance(1, 2) { (55 + r.below(2)).to_string() } else { r.below(57).to_string() }) };
+    let h = o(rng, 4, &|r| if r.chance(2, 3) { (r.below(3)).to_string() } else { r.below(10).to_string() });
+    let q = o(rng, 3, &|r| { let z = r.range(1, 15) as i32; (if r.chance(1, 2) { z } else { -z }).to_string() });
+    let m = o(rng, 2, &|r| r.below(1000).to_string());
+    format!("[{},{},{},{},{},{}]", iso, sym, cfg, h, q, m)
+}
+
+pub fn rand_kind(rng: &mut Rng) -> String {
+    match rng.below(10) {
+        0 => "*".to_string(),
+        1..=4 => format!("A{}", rng.below(12)),
+        5 | 6 => format!("a{}", rng.below(6)),
+        _ => rand_bracket(rng, false),
+    }
+}
+
+/// S-kinds: KTXT over the product of bracket fields (stratified in quick, larger in thorough)
+fn kinds<W: Write>(_t: &Tables, thorough: bool, rng: &mut Rng, out: &mut W) {
+    for i in 0..12 { writeln!(out, "KTXT A{}", i).unwrap() }
+    for i in 0..6 { writeln!(out, "KTXT a{}", i).unwrap() }
+    writeln!(out, "KTXT *").unwrap();
+    let syms: Vec<String> = std::iter::once("*".to_string()).chain((0..118).map(|i| format!("E{}", i))).chain((0..8).map(|i| format!("R{}", i))).collect();
+    let cfgs: Vec<String> = std::iter::once("_".to_string()).chain((0..57).map(|i| i.to_string())).collect();
+    let hs: Vec<String> = std::iter::once("_".to_string()).chain((0..10).map(|i| i.to_string())).collect();
+    let qs: Vec<String> = std::iter::once("_".to_string()).chain((-15..=15).filter(|z| *z != 0).map(|i: i32| i.to_string())).collect();
+    // every symbol x every configuration (hcount, charge varied cyclically)
+    let mut k = 0usize;
+    for sym in syms.iter() { for cfg in cfgs.iter() {
+        k += 1;
+        writeln!(out, "KTXT [_,{},{},{},{},_]", sym, cfg, hs[k % hs.len()], qs[k % qs.len()]).unwrap();
+    } }
+    // every configuration x hcount x charge on carbon
+    for cfg in cfgs.iter() { for h in hs.iter() { for q in qs.iter() {
+        writeln!(out, "KTXT [_,E5,{},{},{},_]", cfg, h, q).unwrap();
+    } } }
+    // all isotopes and maps on one symbol
+    for n in 0..1000 { writeln!(out, "KTXT [{},E5,_,_,_,{}]", n, 999 - n).unwrap() }
+    let n = if thorough { 300000 } else { 20000 };
+    for _ in 0..n { writeln!(out, "KTXT {}", rand_bracket(rng, false)).unwrap() }
+}
+
+// ------------------------------------------------------------------------------------------
+// S-read
+
+const CORPUS_STRINGS: &[&str] = &[
+    "", "C", "CC", "C=C", "C(C)C", "C1CC1", "C.C", "C(.C)C", "C%12CC%12", "C=1CC=1", "C/C=C/C", "C/C=C\\C", "F/C=C/F",
+    "[13CH3]C%12(=O)CC%12", "C1CC[C@]1(F)Cl", "N[C@@H](C)C(=O)O", "C[C@SP1H](F)Cl", "[C@TB20]", "[C@OH14]", "[Cs]", "[C+5]", "[C+10]",
+    "[C-10]", "[G]", "[C@TB0]", "[C@TB]", "[C@TBx", "[C@OH0]", "C%73CC%74", "C11", "C1C1", "C12CC12", "C1CC1C1CC1", "C(C", "C)", "()", "C()",
+    "C(C))", "C((C))", "C(=)", "C=", "C.", ".C", "C..C", "C(.)", "C%", "C%1", "C%1x", "C-1", "C-%12", "C1", "C12", "c1ccccc1", "C#N", "C$C", "c:c",
+    "CéC", "C\u{1F600}", "[C\u{1F600}]", "C%\u{661}2", "[\u{661}C]", "\u{0}", "C\u{0}", " C", "C ", "C\tC", "C\nC",
+    "*", "[*]", "[*H]", "[*@H]", "**", "*1*1", "C1.C1", "C(C1)C1", "C1(C1)", "C=1C-1", "C/1CC\\1", "C/1CC/1", "C1CC=1", "C=1CC1",
+];
+
+fn rand_atom_text(t: &Tables, rng: &mut Rng) -> String {
+    match rng.below(12) {
+        0 => "*".to_string(),
+        1..=5 => ["C", "N", "O", "S", "P", "F", "Cl", "Br", "I", "B", "At", "Ts"][rng.below(12)].to_string(),
+        6 | 7 => ["c", "n", "o", "s", "p", "b"][rng.below(6)].to_string(),
+        _ => {
+            let sb = rng.chance(1, 3); let k = rand_bracket(rng, sb);
+            let kind = parse_kind(&k).unwrap();
+            let mut s = kind.to_string();
+            let _ = t;
+            // non-canonical spellings now and then
+            if rng.chance(1, 8) { s = s.replace("@@", "@TH2") }
+            if rng.chance(1, 8) { s = s.replace("+]", "+1]").replace("-]", "-1]") }
+            s
+        }
+    }
+}
+
+fn rand_bond_text(rng: &mut Rng) -> &'static str {
+    if rng.chance(6, 10) { "" } else { ["-", "=", "#", "$", ":", "/", "\\"][rng.below(7)] }
+}
+
+fn rand_rnum_text(rng: &mut Rng, n: usize) -> String {
+    if n < 10 && rng.chance(9, 10) { n.to_string() } else { format!("%{:02}", n) }
+}
+
+/// grammar-directed random valid string: <smiles> ::= <atom> <body>*
+fn rand_smiles(t: &Tables, rng: &mut Rng, budget: &mut usize, depth: usize, open_rings: &mut Vec<usize>) -> String {
+    let mut s = rand_atom_text(t, rng);
+    loop {
+        if *budget == 0 { break }
+        *budget -= 1;
+        match rng.below(20) {
+            0..=7 => { s.push_str(rand_bond_text(rng)); s.push_str(&rand_atom_text(t, rng)) }
+            8 | 9 => if depth < 5 {
+                s.push('(');
+                match rng.below(6) { 0 => s.push('.'), 1 | 2 => s.push_str(rand_bond_text(rng)), _ => {} }
+                s.push_str(&rand_smiles(t, rng, budget, depth + 1, open_rings));
+                s.push(')');
+            },
+            10 => { s.push('.'); s.push_str(&rand_atom_text(t, rng)) }
+            11..=14 => {
+                // ring digit: close an open one or open a new one
+                s.push_str(rand_bond_text(rng));
+                if !open_rings.is_empty() && rng.chance(1, 2) {
+                    let i = rng.below(open_rings.len());
+                    let n = open_rings.remove(i);
+                    s.push_str(&rand_rnum_text(rng, n));
+                } else {
+                    let n = if rng.chance(4, 5) { rng.below(10) } else { rng.below(100) };
+                    if !open_rings.contains(&n) { open_rings.push(n) } else { open_rings.retain(|x| *x != n) }
+                    s.push_str(&rand_rnum_text(rng, n));
+                }
+            }
+            _ => if rng.chance(1, 3) { break },
+        }
+    }
+    s
+}
+
+fn mutate(rng: &mut Rng, s: &str) -> String {
+    let alphabet: Vec<char> = "CNOcn()[].=#$:/\\-+%@H0123456789*lrBFSPIsea \u{e9}".chars().collect();
+    let mut cs: Vec<char> = s.chars().collect();
+    if cs.is_empty() { return alphabet[rng.below(alphabet.len())].to_string() }
+    let i = rng.below(cs.len());
+    match rng.below(4) {
+        0 => { cs.remove(i); }
+        1 => { cs[i] = *rng.pick(&alphabet); }
+        2 => { cs.insert(i, *rng.pick(&alphabet)); }
+        _ => { cs.truncate(i); }
+    }
+    cs.into_iter().collect()
+}
+
+fn enumerate_strings<W: Write>(alphabet: &[&str], max_len: usize, out: &mut W) {
+    // all sequences of up to max_len alphabet tokens
+    let n = alphabet.len();
+    for len in 0..=max_len {
+        let total = n.pow(len as u32);
+        for mut v in 0..total {
+            let mut s = String::new();
+            for _ in 0..len { s.push_str(alphabet[v % n]); v /= n }
+            read_req(out, &s);
+        }
+    }
+}
+
+fn read_suite<W: Write>(t: &Tables, thorough: bool, rng: &mut Rng, out: &mut W) {
+    for s in CORPUS_STRINGS { read_req(out, s) }
+    let a14 = ["C", "N", "c", "(", ")", ".", "=", "/", "1", "2", "%", "[", "]", "*"];
+    let a6 = ["C", "(", ")", ".", "1", "="];
+    let a8 = ["C", "[", "]", "@", "H", "+", "2", ":"];
+    if thorough {
+        enumerate_strings(&a14, 5, out);
+        enumerate_strings(&a6, 7, out);
+        enumerate_strings(&a8, 6, out);
+    } else {
+        enumerate_strings(&a14, 4, out);
+        enumerate_strings(&a6, 6, out);
+        enumerate_strings(&a8, 5, out);
+    }
+    let n = if thorough { 200000 } else { 15000 };
+    for i in 0..n {
+        let mut budget = if i % 50 == 0 { 200 } else { rng.range(1, 30) };
+        let mut rings = Vec::new();
+        let mut s = rand_smiles(t, rng, &mut budget, 0, &mut rings);
+        // close what is still open most of the time (valid rings)
+        if rng.chance(4, 5) { for n in rings.drain(..) { s.push_str(&rand_rnum_text(rng, n)) } }
+        read_req(out, &s);
+        if rng.chance(1, 2) { let m = mutate(rng, &s); read_req(out, &m) }
+    }
+}
+
+// ------------------------------------------------------------------------------------------
+// S-events
+
+fn rand_history(rng: &mut Rng, len: usize, small: bool) -> Vec<String> {
+    let mut evs = Vec::new();
+    let mut n = 0usize; // path length
+    let kind = |rng: &mut Rng| if small { ["*", "A1", "A7", "[_,E5,55,1,_,_]"][rng.below(4)].to_string() } else { rand_kind(rng) };
+    for _ in 0..len {
+        if n == 0 { evs.push(format!("R:{}", kind(rng))); n = 1; continue }
+        match rng.below(10) {
+            0 => { evs.push(format!("R:{}", kind(rng))); n += 1 }
+            1..=4 => { evs.push(format!("X:{}:{}", rng.below(8), kind(rng))); n += 1 }
+            5 | 6 | 7 => { evs.push(format!("J:{}:{}", if rng.chance(1, 2) { 0 } else { rng.below(8) }, if small || rng.chance(3, 4) { rng.below(4) } else { rng.below(100) })) }
+            _ => if n >= 2 { let d = rng.range(1, n - 1); evs.push(format!("P:{}", d)); n -= d },
+        }
+    }
+    evs
+}
+
+fn events<W: Write>(_t: &Tables, thorough: bool, rng: &mut Rng, out: &mut W) {
+    // all histories of up to 5 events over a small alphabet (conformant and not)
+    let alpha = ["R:*", "R:A1", "X:0:*", "X:2:A1", "X:6:[_,E5,55,1,_,_]", "J:0:1", "J:6:1", "J:7:1", "J:2:2", "P:1", "P:2", "P:0"];
+    let maxlen = if thorough { 5 } else { 4 };
+    for len in 0..=maxlen {
+        let total = alpha.len().pow(len as u32);
+        for mut v in 0..total {
+            let mut evs = Vec::new();
+            for _ in 0..len { evs.push(alpha[v % alpha.len()].to_string()); v /= alpha.len() }
+            writeln!(out, "EVS {}", join_sp(&evs)).unwrap();
+        }
+    }
+    // all 64 kind pairs on the two ends of a closure, same / adjacent / distant atoms
+    for l in 0..8 { for r in 0..8 {
+        writeln!(out, "EVS R:* J:{}:1 X:0:* X:0:* J:{}:1", l, r).unwrap();
+        writeln!(out, "EVS R:* J:{}:1 X:0:* J:{}:1", l, r).unwrap();
+        writeln!(out, "EVS R:* J:{}:1 J:{}:1", l, r).unwrap();
+        writeln!(out, "EVS R:* J:{}:1 X:0:* X:0:* J:{}:1 J:0:1 X:0:* J:0:1", l, r).unwrap();
+    } }
+    let n = if thorough { 200000 } else { 20000 };
+    for i in 0..n {
+        let len = if i % 40 == 0 { 200 } else { rng.range(1, 25) };
+        let small = rng.chance(1, 2); let mut evs = rand_history(rng, len, small);
+        if rng.chance(1, 10) && !evs.is_empty() {
+            // malformed stream: drop / duplicate / reorder one event, or an illegal pop
+            let i = rng.below(evs.len());
+            match rng.below(3) { 0 => { evs.remove(i); } 1 => { evs.insert(i, format!("P:{}", rng.below(5))); } _ => { let e = evs[i].clone(); evs.insert(0, e); } }
+        }
+        writeln!(out, "EVS {}", join_sp(&evs)).unwrap();
+    }
+}
+
+// ------------------------------------------------------------------------------------------
+// S-graph
+
+#[derive(Clone)]
+struct GAtom { kind: String, bonds: Vec<(usize, usize)> } // (bond kind index, tid)
+
+fn graph_req<W: Write>(out: &mut W, g: &[GAtom]) {
+    if g.is_empty() { writeln!(out, "WALK -").unwrap(); return }
+    let parts: Vec<String> = g.iter().map(|a| format!("{}/{}", a.kind, a.bonds.iter().map(|(b, t)| format!("{}:{}", b, t)).collect::<Vec<_>>().join(","))).collect();
+    writeln!(out, "WALK {}", parts.join(" ")).unwrap();
+}
+
+fn rev_kind(b: usize) -> usize { match b { 6 => 7, 7 => 6, x => x } }
+
+fn add_edge(g: &mut Vec<GAtom>, a: usize, b: usize, k: usize) {
+    g[a].bonds.push((k, b));
+    g[b].bonds.push((rev_kind(k), a));
+}
+
+fn rand_graph_kind(rng: &mut Rng) -> String {
+    match rng.below(10) {
+        0 | 1 => "*".to_string(),
+        2..=4 => format!("A{}", rng.below(12)),
+        5 => format!("a{}", rng.below(6)),
+        6 | 7 => rand_bracket(rng, true),
+        _ => rand_bracket(rng, false),
+    }
+}
+
+fn rand_wellformed(rng: &mut Rng, n: usize, rings: usize, comps: usize) -> Vec<GAtom> {
+    let mut g: Vec<GAtom> = (0..n).map(|_| GAtom { kind: rand_graph_kind(rng), bonds: vec![] }).collect();
+    let bk = |rng: &mut Rng| if rng.chance(1, 2) { 0 } else { rng.below(8) };
+    // random forest with `comps` components
+    for i in 1..n {
+        if i < comps { continue }
+        let p = rng.below(i);
+        let k = bk(rng);
+        add_edge(&mut g, p, i, k);
+    }
+    // extra ring edges between non-adjacent atoms
+    for _ in 0..rings {
+        if n < 3 { break }
+        let a = rng.below(n); let b = rng.below(n);
+        if a == b || g[a].bonds.iter().any(|(_, t)| *t == b) { continue }
+        let k = bk(rng);
+        add_edge(&mut g, a, b, k);
+    }
+    // shuffle each bond list, then relabel the atoms
+    for a in g.iter_mut() { rng.shuffle(&mut a.bonds) }
+    let mut perm: Vec<usize> = (0..n).collect();
+    rng.shuffle(&mut perm);
+    let mut h: Vec<GAtom> = vec![GAtom { kind: String::new(), bonds: vec![] }; n];
+    for (i, a) in g.into_iter().enumerate() {
+        h[perm[i]] = GAtom { kind: a.kind, bonds: a.bonds.into_iter().map(|(k, t)| (k, perm[t])).collect() };
+    }
+    h
+}
+
+fn mutate_graph(rng: &mut Rng, g: &mut Vec<GAtom>) {
+    let n = g.len();
+    if n == 0 { return }
+    let with_bonds: Vec<usize> = (0..n).filter(|i| !g[*i].bonds.is_empty()).collect();
+    if with_bonds.is_empty() { g[0].bonds.push((0, rng.below(n + 2))); return }
+    let a = *rng.pick(&with_bonds);
+    let i = rng.below(g[a].bonds.len());
+    match rng.below(5) {
+        0 => { g[a].bonds.remove(i); }                                   // drop a half-bond
+        1 => { g[a].bonds[i].1 = rng.below(n + 2); }                     // retarget
+        2 => { let b = g[a].bonds[i]; let j = rng.below(g[a].bonds.len() + 1); g[a].bonds.insert(j, b); } // duplicate
+        3 => { g[a].bonds[i].0 = (g[a].bonds[i].0 + 1 + rng.below(7)) % 8; } // re-kind
+        _ => { let b = rng.below(n); g[a].bonds.push((rng.below(8), b)); } // add a half-bond
+    }
+}
+
+fn all_small_graphs<W: Write>(n: usize, kinds: &[usize], out: &mut W, garbage: bool) {
+    // every assignment of a bond list to each atom where lists are sequences over (kind, target) of length <= 2 (garbage)
+    // or every symmetric simple graph x bond kinds x bond-list orders (well-formed)
+    if garbage {
+        let mut opts: Vec<Vec<(usize, usize)>> = vec![vec![]];
+        let halves: Vec<(usize, usize)> = kinds.iter().flat_map(|k| (0..=n).map(move |t| (*k, t))).collect();
+        for h in halves.iter() { opts.push(vec![*h]) }
+        for h in halves.iter() { for h2 in halves.iter() { opts.push(vec![*h, *h2]) } }
+        let total = opts.len().pow(n as u32);
+        for mut v in 0..total {
+            let mut g = Vec::new();
+            for _ in 0..n { g.push(GAtom { kind: "*".to_string(), bonds: opts[v % opts.len()].clone() }); v /= opts.len() }
+            graph_req(out, &g);
+        }
+    } else {
+        let pairs: Vec<(usize, usize)> = (0..n).flat_map(|a| (a + 1..n).map(move |b| (a, b))).collect();
+        let choices = kinds.len() + 1; // none or one of kinds
+        let total = choices.pow(pairs.len() as u32);
+        for mut v in 0..total {
+            let mut g: Vec<GAtom> = (0..n).map(|_| GAtom { kind: "*".to_string(), bonds: vec![] }).collect();
+            for (a, b) in pairs.iter() { let c = v % choices; v /= choices; if c > 0 { add_edge(&mut g, *a, *b, kinds[c - 1]) } }
+            // all orders of each bond list: enumerate permutations per atom (product)
+            let perms: Vec<Vec<Vec<(usize, usize)>>> = g.iter().map(|a| permutations(&a.bonds)).collect();
+            let mut idx = vec![0usize; n];
+            loop {
+                let h: Vec<GAtom> = (0..n).map(|i| GAtom { kind: g[i].kind.clone(), bonds: perms[i][idx[i]].clone() }).collect();
+                graph_req(out, &h);
+                let mut k = 0;
+                while k < n { idx[k] += 1; if idx[k] < perms[k].len() { break } idx[k] = 0; k += 1 }
+                if k == n { break }
+            }
+        }
+    }
+}
+
+fn permutations<T: Clone>(v: &[T]) -> Vec<Vec<T>> {
+    if v.len() <= 1 { return vec![v.to_vec()] }
+    let mut out = Vec::new();
+    for i in 0..v.len() {
+        let mut rest = v.to_vec();
+        let x = rest.remove(i);
+        for mut p in permutations(&rest) { p.insert(0, x.clone()); out.push(p) }
+    }
+    out
+}
+
+fn stereo_family<W: Write>(out: &mut W) {
+    // a centre with 4 (or 3 + H) neighbours at every arrival index, both marks, as root / chain atom / ring-closing atom
+    for mark in [55usize, 56] { for h in ["_", "1", "0"] { for arrival in 0..4usize { for ring in [false, true] { for cfg_other in [false, true] {
+        let deg = if h == "1" { 3 } else { 4 };
+        if arrival >= deg { continue }
+        let cfg = if cfg_other { 33 + arrival } else { mark };
+        // atom 0 = entry neighbour, atom 1 = centre, others = substituents
+        let mut g: Vec<GAtom> = vec![GAtom { kind: "A1".to_string(), bonds: vec![] }, GAtom { kind: format!("[_,E5,{},{},_,_]", cfg, h), bonds: vec![] }];
+        let mut subs = Vec::new();
+        for i in 0..deg - 1 { g.push(GAtom { kind: format!("A{}", 6 + i), bonds: vec![] }); subs.push(2 + i) }
+        // centre bond list: substituents in order with the entry bond inserted at `arrival`
+        let mut order: Vec<usize> = subs.clone();
+        order.insert(arrival, 0);
+        for t in order.iter() { g[1].bonds.push((0, *t)) }
+        g[0].bonds.push((0, 1));
+        for s_ in subs.iter() { g[*s_].bonds.push((0, 1)) }
+        if ring { let a = subs[0]; let b = subs[1]; g[a].bonds.push((0, b)); g[b].bonds.push((0, a)); }
+        graph_req(out, &g);
+        // the same with the centre as root (atom ids swapped)
+        let mut h2 = g.clone();
+        h2.swap(0, 1);
+        for a in h2.iter_mut() { for b in a.bonds.iter_mut() { b.1 = match b.1 { 0 => 1, 1 => 0, x => x } } }
+        graph_req(out, &h2);
+    } } } } }
+    // directional bonds on tree and ring edges, both directions
+    for k in [6usize, 7] {
+        graph_req(out, &vec![GAtom { kind: "A6".to_string(), bonds: vec![(k, 1)] }, GAtom { kind: "A1".to_string(), bonds: vec![(rev_kind(k), 0), (2, 2)] },
+                             GAtom { kind: "A1".to_string(), bonds: vec![(2, 1), (k, 3)] }, GAtom { kind: "A6".to_string(), bonds: vec![(rev_kind(k), 2)] }]);
+        graph_req(out, &vec![GAtom { kind: "A1".to_string(), bonds: vec![(k, 2), (0, 1)] }, GAtom { kind: "A1".to_string(), bonds: vec![(0, 0), (0, 2)] },
+                             GAtom { kind: "A1".to_string(), bonds: vec![(0, 1), (rev_kind(k), 0)] }]);
+    }
+}
+
+fn graph<W: Write>(_t: &Tables, thorough: bool, rng: &mut Rng, out: &mut W) {
+    graph_req(out, &[]);
+    // exhaustive small graphs
+    all_small_graphs(1, &[0], out, true);
+    all_small_graphs(2, &[0, 6], out, true);
+    if thorough { all_small_graphs(3, &[0], out, true) }
+    all_small_graphs(2, &[0, 1, 6, 7], out, false);
+    all_small_graphs(3, &[0, 2, 6], out, false);
+    all_small_graphs(4, &[0, 6], out, false);
+    if thorough { all_small_graphs(5, &[0], out, false) }
+    stereo_family(out);
+    let n = if thorough { 200000 } else { 15000 };
+    for i in 0..n {
+        let size = if i % 100 == 0 { rng.range(50, 300) } else { rng.range(1, 14) };
+        let rings = match rng.below(4) { 0 => 0, 1 => 1, 2 => rng.below(4), _ => rng.below(size + 1) };
+        let comps = if rng.chance(1, 4) { rng.range(1, 3) } else { 1 };
+        let mut g = rand_wellformed(rng, size, rings, comps);
+        if rng.chance(1, 3) { mutate_graph(rng, &mut g) }
+        if rng.chance(1, 30) { mutate_graph(rng, &mut g); mutate_graph(rng, &mut g) }
+        graph_req(out, &g);
+    }
+    // ring-rich graphs: many simultaneously open closures (a ladder / complete-ish graph), long runs of sequential rings then fused
+    for m in [10usize, 40, 98, 99, 100, 101, 120] {
+        // hub-less comb: atoms 0..m in a chain, plus atoms m+1..2m+1 each bonded to i and to the last atom => many open closures
+        let n = m + 2;
+        let mut g: Vec<GAtom> = (0..n).map(|_| GAtom { kind: "*".to_string(), bonds: vec![] }).collect();
+        // ring bonds from atom i to the last atom are listed first, so they open before the chain continues
+        for i in 0..m { if i + 1 != n - 1 { add_edge(&mut g, i, n - 1, 0) } }
+        for i in 0..n - 1 { if !(g[i].bonds.iter().any(|(_, t)| *t == i + 1)) { add_edge(&mut g, i, i + 1, 0) } }
+        graph_req(out, &g);
+    }
+    for runs in [5usize, 120, 300] {
+        // `runs` sequential three-membered rings in one chain, then a fused bicycle
+        let mut g: Vec<GAtom> = Vec::new();
+        let mut last: Option<usize> = None;
+        for _ in 0..runs {
+            let b = g.len();
+            for _ in 0..3 { g.push(GAtom { kind: "A1".to_string(), bonds: vec![] }) }
+            if let Some(l) = last { add_edge(&mut g, l, b, 0) }
+            add_edge(&mut g, b, b + 2, 0); add_edge(&mut g, b, b + 1, 0); add_edge(&mut g, b + 1, b + 2, 0);
+            last = Some(b + 2);
+        }
+        let b = g.len();
+        for _ in 0..4 { g.push(GAtom { kind: "A1".to_string(), bonds: vec![] }) }
+        add_edge(&mut g, last.unwrap(), b, 0);
+        add_edge(&mut g, b, b + 3, 0); add_edge(&mut g, b, b + 2, 0); add_edge(&mut g, b, b + 1, 0); add_edge(&mut g, b + 1, b + 2, 0); add_edge(&mut g, b + 2, b + 3, 0);
+        graph_req(out, &g);
+    }
+}
+
+// ------------------------------------------------------------------------------------------
+// S-pool
+
+fn pool<W: Write>(thorough: bool, rng: &mut Rng, out: &mut W) {
+    writeln!(out, "POOL -").unwrap();
+    writeln!(out, "POOL 0-1 1-0 2-3 4-5").unwrap();
+    writeln!(out, "POOL 0-1 1-3 2-4 3-1 1-0 3-5").unwrap();
+    // all open/close interleavings of up to k pairs: sequences over pair ids where each id appears at most twice
+    let k = if thorough { 6 } else { 5 };
+    fn rec<W: Write>(seq: &mut Vec<usize>, counts: &mut Vec<usize>, k: usize, maxlen: usize, out: &mut W) {
+        if !seq.is_empty() {
+            let s: Vec<String> = seq.iter().enumerate().map(|(pos, id)| {
+                // the second hit of a pair is made from the other side
+                let first = seq[..pos].iter().filter(|x| *x == id).count() == 0;
+                if first { format!("{}-{}", 2 * id, 2 * id + 1) } else { format!("{}-{}", 2 * id + 1, 2 * id) }
+            }).collect();
+            writeln!(out, "POOL {}", s.join(" ")).unwrap();
+        }
+        if seq.len() == maxlen { return }
+        // canonical: a new id may only be the smallest unused one
+        let used = counts.iter().filter(|c| **c > 0).count();
+        for id in 0..k.min(used + 1) {
+            if counts[id] < 2 { counts[id] += 1; seq.push(id); rec(seq, counts, k, maxlen, out); seq.pop(); counts[id] -= 1 }
+        }
+    }
+    rec(&mut Vec::new(), &mut vec![0; k], k, 2 * k, out);
+    // long sequential runs then fused
+    for n in [10usize, 98, 99, 100, 1000, 10000] {
+        let mut s = Vec::new();
+        for i in 0..n { s.push(format!("{}-{}", 2 * i, 2 * i + 1)); s.push(format!("{}-{}", 2 * i + 1, 2 * i)) }
+        s.push("1-2".to_string()); s.push("3-4".to_string()); s.push("2-1".to_string()); s.push("5-6".to_string());
+        writeln!(out, "POOL {}", s.join(" ")).unwrap();
+    }
+    // many simultaneously open
+    for n in [98usize, 99, 100, 101, 150] {
+        let mut s = Vec::new();
+        for i in 0..n { s.push(format!("{}-{}", 2 * i, 2 * i + 1)) }
+        for i in (0..n).rev() { s.push(format!("{}-{}", 2 * i + 1, 2 * i)) }
+        s.push("0-1".to_string());
+        writeln!(out, "POOL {}", s.join(" ")).unwrap();
+    }
+    let n = if thorough { 50000 } else { 5000 };
+    for _ in 0..n {
+        let len = rng.range(1, 60);
+        let ids = rng.range(1, 12);
+        let mut s = Vec::new();
+        for _ in 0..len {
+            let a = rng.below(ids); let b = rng.below(ids);
+            s.push(format!("{}-{}", a, b));
+        }
+        writeln!(out, "POOL {}", s.join(" ")).unwrap();
+    }
+}
+
+// ------------------------------------------------------------------------------------------
+// S-val
+
+fn val<W: Write>(_t: &Tables, thorough: bool, rng: &mut Rng, out: &mut W) {
+    let syms: Vec<String> = std::iter::once("*".to_string()).chain((0..118).map(|i| format!("E{}", i))).chain((0..8).map(|i| format!("R{}", i))).collect();
+    let hs: Vec<String> = std::iter::once("_".to_string()).chain((0..10).map(|i| i.to_string())).collect();
+    let qs: Vec<String> = std::iter::once("_".to_string()).chain((-15..=15).filter(|z| *z != 0).map(|i: i32| i.to_string())).collect();
+    let interesting = ["E4", "E5", "E6", "E7", "E14", "E15", "E32", "E33", "E8", "E16", "R0", "R1", "R2", "R3", "R4", "R5", "R6", "R7", "*", "E0", "E54"];
+    // bond lists realising a bond-order sum in several ways
+    let sums: Vec<usize> = if thorough { (0..=300).collect() } else { (0..=12).chain([20, 100, 200, 254, 255, 256, 257, 258, 259, 260, 300].iter().cloned()).collect() };
+    for sym in syms.iter() { for h in hs.iter() { for q in qs.iter() {
+        if !interesting.contains(&sym.as_str()) && !(h == "_" && q == "_") && !thorough { continue }
+        for &sum in sums.iter() {
+            if sum > 12 && !interesting.contains(&sym.as_str()) { continue }
+            writeln!(out, "VAL [_,{},_,{},{},_] {}", sym, h, q, if sum == 0 { "-".to_string() } else { format!("1*{}", sum) }).unwrap();
+        }
+    } } }
+    for i in 0..12 { for sum in 0..=600usize { 
+        writeln!(out, "VAL A{} {}", i, if sum == 0 { "-".to_string() } else { format!("1*{}", sum) }).unwrap();
+        if sum % 2 == 0 && sum > 0 { writeln!(out, "VAL A{} 2*{}", i, sum / 2).unwrap() }
+        if sum >= 9 { writeln!(out, "VAL A{} 0*{},2*1,3*1,4*1", i, sum - 9).unwrap() }
+    } }
+    for i in 0..6 { for sum in 0..=600usize { writeln!(out, "VAL a{} {}", i, if sum == 0 { "-".to_string() } else { format!("5*{}", sum) }).unwrap() } }
+    for sum in [0usize, 1, 255, 256, 1000, 20000] { writeln!(out, "VAL * {}", if sum == 0 { "-".to_string() } else { format!("3*{}", sum) }).unwrap() }
+    for b in 0..8 { writeln!(out, "VAL A1 {}*1", b).unwrap(); writeln!(out, "VAL A1 {}*64", b).unwrap() }
+    // debracket: every symbol x hcount x bond-order sum that fits a byte x presence of each other field
+    for sym in syms.iter() { for h in hs.iter() {
+        let hv: usize = h.parse().unwrap_or(0);
+        let boss: Vec<usize> = if interesting.contains(&sym.as_str()) || thorough { (0..=255 - hv).collect() } else { (0..=8).chain([255 - hv].iter().cloned()).collect() };
+        for bos in boss { writeln!(out, "DEB [_,{},_,{},_,_] {}", sym, h, bos).unwrap() }
+        for bos in 0..=6 {
+            writeln!(out, "DEB [12,{},_,{},_,_] {}", sym, h, bos).unwrap();
+            writeln!(out, "DEB [_,{},55,{},_,_] {}", sym, h, bos).unwrap();
+            writeln!(out, "DEB [_,{},_,{},1,_] {}", sym, h, bos).unwrap();
+            writeln!(out, "DEB [_,{},_,{},_,7] {}", sym, h, bos).unwrap();
+        }
+    } }
+    for i in 0..12 { for bos in [0usize, 1, 4, 255] { writeln!(out, "DEB A{} {}", i, bos).unwrap() } }
+    for i in 0..6 { for bos in [0usize, 1, 4, 255] { writeln!(out, "DEB a{} {}", i, bos).unwrap() } }
+    writeln!(out, "DEB * 3").unwrap();
+    let n = if thorough { 100000 } else { 10000 };
+    for _ in 0..n {
+        let k = rand_kind(rng);
+        let mut parts = Vec::new();
+        for b in 0..8 { if rng.chance(1, 3) { parts.push(format!("{}*{}", b, if rng.chance(1, 20) { rng.range(1, 400) } else { rng.range(1, 4) })) } }
+        writeln!(out, "VAL {} {}", k, if parts.is_empty() { "-".to_string() } else { parts.join(",") }).unwrap();
+        writeln!(out, "DEB {} {}", rand_bracket(rng, false), rng.below(12)).unwrap();
+    }
+}
+
+// ------------------------------------------------------------------------------------------
+// S-depth: size families with constant nesting
+
+pub fn family(name: &str, n: usize) -> String {
+    match name {
+        "chain" => "C".repeat(n),
+        "dots" => { let mut s = String::from("C"); for _ in 1..n { s.push_str(".C") } s }
+        "branches" => { let mut s = String::from("C"); for _ in 1..n { s.push_str("(C)") } s }
+        "ringlist" => { let mut s = String::from("C1CC1"); for _ in 1..n / 3 { s.push_str(".C1CC1") } s }
+        "ringchain" => { let mut s = String::new(); for _ in 0..n / 3 { s.push_str("C1CC1") } s }
+        "digits" => { let mut s = String::from("C"); for i in 0..n { s.push_str(&format!("%{:02}", 10 + i % 80)); } for i in 0..n { s.push_str(&format!("%{:02}", 10 + i % 80)); } s }
+        "nested" => { let mut s = String::from("C"); for _ in 1..n { s.push_str("(C") } for _ in 1..n { s.push(')') } s }
+        "nested2" => { let mut s = String::new(); for _ in 0..n { s.push_str("C(C)(") } s.push('C'); for _ in 0..n { s.push(')') } s }
+        _ => String::new(),
+    }
+}
+
+fn depth<W: Write>(thorough: bool, out: &mut W) {
+    let sizes: &[usize] = if thorough { &[1, 2, 3, 10, 100, 1000, 10000, 30000] } else { &[1, 2, 3, 10, 100, 1000, 5000] };
+    for fam in ["chain", "dots", "branches", "ringlist", "ringchain", "digits"] {
+        for &n in sizes { read_req(out, &family(fam, n)) }
+    }
+    for fam in ["nested", "nested2"] { for &n in [1usize, 2, 3, 10, 50, 200].iter() { read_req(out, &family(fam, n)) } }
 }
